@@ -19,15 +19,20 @@ import re
 import time
 
 from harness.common import coq
+from harness.translate import exprstore
 
 ID = 'C04'
 PROPS = 'theories/Props/C04.v'
 MODEL_TARGETS = ['theories/C04/Run.vo']
-TRANSLATORS = []
-TIE = ('correspondence: histories of expression assignments / clears / port removals / re-additions through the real '
-       'set_attr("expression") path vs Model.step by vm_compute, every step (outcome + resulting expression text)')
+TRANSLATORS = [exprstore.translate]
+TIE = ('translator (no suspension point between check_loops and the store of the expression; check_loops awaits only itself) + '
+       'correspondence: histories of expression assignments / clears / port removals / re-additions, single and concurrent '
+       '(asyncio.gather, on ports with and without a running value sequence), through the real set_attr("expression") path vs '
+       'Model.step by vm_compute, every step (outcome + resulting expression text; a concurrent step must equal some serialization)')
 ALLOWED_AXIOMS = []
 TRUSTED_BASE = [
+    'harness/translate/exprstore.py (counts the suspension points between `await check_loops(...)` and `self._expression = '
+    'expression` in attr_set_expression, and the awaits of check_loops other than its own recursion)',
     'correspondence harness harness/props/c04.py: generator, the text <-> tree mapping of the generated fragment '
     '(checked each step through str(port.get_expression())), the brute-force reachability oracle over Expression.get_deps()',
     'modelled, not verified: the expression parser (C03), object identity of ports = equality of ids in _ports_by_id, '
@@ -36,7 +41,9 @@ TRUSTED_BASE = [
 ASSUMPTIONS = [
     'the port registry only changes by load_one / remove; ids are never re-mapped while expressions refer to them '
     '(map_id applies to non-virtual ports at start-up only)',
-    'assignments are not interleaved: attr_set_expression has no suspension point between check_loops and the store',
+    'concurrent requests: the event-loop model (Model.task_step) lets a request yield any number of times before its check and '
+    'after its store, never in between; that number is read from the source on every run (Gen/C04Gen.v) and tested by '
+    'concurrent steps, it is not proved about CPython',
     'a port is (re-)added without expression; an expression persisted for it is installed through the same set_attr path',
 ]
 
@@ -164,17 +171,63 @@ def gen_tree(rng, ids, depth, density):
     return ('call', name, [gen_tree(rng, ids, depth - 1, density) for _ in range(rng.randint(lo, hi))])
 
 
-def gen_history(rng):
+def _wrap_ref(rng, target, ids, density):
+    """a small tree that reads $target somewhere"""
+    r = rng.random()
+    if r < 0.4:
+        return ('pv', target)
+    name = rng.choice(sorted(FUNCS))
+    lo, hi = FUNCS[name]
+    args = [gen_tree(rng, ids, rng.choice([0, 0, 1]), density * 0.5) for _ in range(rng.randint(lo, hi))]
+    args[rng.randrange(len(args))] = ('pv', target) if rng.random() < 0.7 else _wrap_ref(rng, target, ids, density)
+    return ('call', name, args)
+
+
+def gen_par(rng, ids, alive, density, ops):
+    """append a concurrent step (and, before it, the operations that start value sequences on its ports) to ops"""
+    live = sorted(alive)
+    k = min(len(live), rng.choice([2, 2, 3]))
+    if k < 2:
+        return
+    mode = rng.random()
+    seq_mode = rng.choice(['all', 'all', 'none', 'mixed'])
+    subs = []
+    if mode < 0.5:
+        # requests that close a cycle only together: q0 reads q1, q1 reads q2, ..., the last one reads q0
+        qs = rng.sample(live, k)
+        for i, q in enumerate(qs):
+            subs.append(['set', q, text_of(_wrap_ref(rng, qs[(i + 1) % k], ids, density))])
+    else:
+        for _ in range(k):
+            q = rng.choice(live)
+            r = rng.random()
+            text = '' if r < 0.1 else rng.choice(BAD_TEXTS) if r < 0.15 else text_of(gen_tree(rng, ids, rng.choice([0, 1, 1, 2]), density))
+            subs.append(['set', q, text])
+    targets = {q for _, q, _ in subs}
+    if mode >= 0.8 and len(alive - targets) >= 1 and len(alive) > 2:
+        victim = rng.choice(sorted(alive - targets))
+        subs[rng.randrange(len(subs))] = ['remove', victim, '']
+        alive.discard(victim)
+    for _, q, _ in [x for x in subs if x[0] == 'set']:
+        if seq_mode == 'all' or (seq_mode == 'mixed' and rng.random() < 0.5):
+            ops.append(['set', q, ''])       # the API refuses a sequence on a port with an expression
+            ops.append(['seq', q, ''])
+    ops.append(['par', '', subs])
+
+
+def gen_history(rng, par_rate=0.06, max_len=40):
     n = rng.randint(2, 8)
     ids = ['p%d' % i for i in range(1, n + 1)]
     present = [i for i in ids if rng.random() < 0.9] or ids[:2]
     alive = set(present)
     density = rng.choice([0.5, 0.65, 0.8])
     ops = []
-    for _ in range(rng.randint(1, 40)):
+    for _ in range(rng.randint(1, max_len)):
         r = rng.random()
         gone = [i for i in ids if i not in alive]
-        if r < 0.07 and len(alive) > 1:
+        if rng.random() < par_rate:
+            gen_par(rng, ids, alive, density, ops)
+        elif r < 0.07 and len(alive) > 1:
             p = rng.choice(sorted(alive))
             alive.discard(p)
             ops.append(['remove', p, ''])
@@ -186,12 +239,19 @@ def gen_history(rng):
             ops.append(['set', rng.choice(sorted(alive)), ''])
         elif r < 0.27:
             ops.append(['set', rng.choice(sorted(alive)), rng.choice(BAD_TEXTS)])
+        elif r < 0.29:
+            ops.append(['seq', rng.choice(sorted(alive)), ''])
         else:
             p = rng.choice(sorted(alive))
             # mostly chains / shallow trees so that long cycles are attempted, sometimes deep nesting
             d = rng.choice([0, 0, 1, 1, 2, 3])
             ops.append(['set', p, text_of(gen_tree(rng, ids, d, density))])
-    return {'ports': present, 'ops': ops}
+    return {'ports': present, 'ops': ops[:max_len + 10]}
+
+
+def gen_par_history(rng):
+    """the concurrent generator used by search(): short histories in which every third operation is a concurrent step"""
+    return gen_history(rng, par_rate=0.35, max_len=12)
 
 
 EXH_PORTS = ['p1', 'p2', 'p3']
@@ -302,79 +362,181 @@ async def _remove_port(I, port):
     await I.core_vports.remove(port.get_id())
 
 
+SEQ_VALUES, SEQ_DELAYS = [1, 2, 3], [60000, 60000, 60000]      # long delays: the sequence is still running afterwards
+
+
+async def _start_sequence(I, port):
+    """what core/api/funcs/ports.py:patch_port_sequence does after validating (enabled, writable, no expression)"""
+    if port.get_expression():
+        return 'seq-refused'
+    if not port.is_enabled():
+        await port.enable()
+    await port.set_sequence(list(SEQ_VALUES), list(SEQ_DELAYS), 0)
+    await asyncio.sleep(0)
+    return 'seq-started'
+
+
+async def _do_set(I, port, text):
+    try:
+        await port.set_attr('expression', text)
+        return 'accepted'
+    except I.core_ports.InvalidAttributeValue as e:
+        reason = (e.details or {}).get('reason')
+        return 'circular' if reason == 'circular-dependency' else 'parse'
+    except I.ex.CircularDependency:
+        return 'circular'
+    except Exception as e:  # anything else is outside the model's alphabet -> tie failure
+        return 'other:%s' % type(e).__name__
+
+
+async def _do_remove(I, port):
+    await _remove_port(I, port)
+    return 'accepted' if I.core_ports.get(port.get_id()) is None else 'other:still-registered'
+
+
+async def _const(x):
+    return x
+
+
+def _text(I, pid):
+    port = I.core_ports.get(pid)
+    e = port.get_expression() if port is not None else None
+    return str(e) if e else ''
+
+
+def _state(I):
+    """pid -> (expression text, ids whose value it reads), from the implementation's own objects"""
+    st = {}
+    for port in I.core_ports.get_all():
+        e = port.get_expression()
+        st[port.get_id()] = (str(e), _value_deps(e)) if e else ('', set())
+    return st
+
+
+def _candidate(I, pid, text):
+    """'' (clear) | None (the real parser refuses the text) | (canonical text, value dependencies)"""
+    if not text:
+        return ''
+    try:
+        cand = I.expressions.parse(pid, text, I.expressions.ROLE_VALUE)
+    except I.ex.ExpressionParseError:
+        return None
+    return (str(cand), _value_deps(cand))
+
+
+def _serve(st, kind, pid, cand):
+    """the specification of one request on state st (modified in place) -> outcome"""
+    if pid not in st:
+        return 'noport'
+    if kind == 'remove':
+        del st[pid]
+        return 'accepted'
+    if cand == '':
+        st[pid] = ('', set())
+        return 'accepted'
+    if cand is None:
+        return 'parse'
+    g = {k: v[1] for k, v in st.items()}
+    if any(q != pid and q in g and pid in _reach(g, q) for q in cand[1]):
+        return 'circular'
+    st[pid] = cand
+    return 'accepted'
+
+
+def _serializable(before, reqs, outcomes, afters):
+    """is there an order in which the requests, served one after the other, give these outcomes and these expressions?"""
+    for order in itertools.permutations(range(len(reqs))):
+        st = dict(before)
+        outs = {}
+        for i in order:
+            outs[i] = _serve(st, *reqs[i])
+        if all(outs[i] == outcomes[i] for i in range(len(reqs))) and \
+                all(st.get(reqs[i][1], ('', None))[0] == afters[i] for i in range(len(reqs))):
+            return True
+    return False
+
+
 async def run_history(I, h):
-    """-> (observations [(outcome, text_after)], oracle verdict None | (step index, kind, detail))"""
+    """-> (observations, one per operation: (outcome, text_after) | ('par', [(outcome, text_after)...]) | ('seq-...', ''),
+           oracle verdict None | (operation index, kind, detail))"""
     for port in list(I.core_ports.get_all()):
         await _remove_port(I, port)
     obs = []
     verdict = None
+    touched = []
     try:
         for i, pid in enumerate(h['ports']):
-            await _add_port(I, pid, i % 2 == 0)
+            touched.append(await _add_port(I, pid, i % 2 == 0))
         for k, (kind, pid, text) in enumerate(h['ops']):
-            port = I.core_ports.get(pid)
             bad = None
-            if kind == 'add':
-                if port is not None:
-                    obs.append(('noport', ''))
-                    continue
-                port = await _add_port(I, pid, k % 2 == 0)
-                outcome = 'accepted'
-                after = str(port.get_expression()) if port.get_expression() else ''
-            elif kind == 'remove':
-                if port is None:
-                    obs.append(('noport', ''))
-                    continue
-                await _remove_port(I, port)
-                outcome, after = 'accepted', ''
-                if I.core_ports.get(pid) is not None:
-                    outcome = 'other:still-registered'
+            if kind == 'seq':
+                port = I.core_ports.get(pid)
+                obs.append((await _start_sequence(I, port) if port is not None else 'seq-refused', ''))
+                continue
+            if kind == 'par':
+                subs = text
+                before = _state(I)
+                reqs, coros = [], []
+                n_seq = 0
+                for skind, spid, stext in subs:
+                    port = I.core_ports.get(spid)
+                    reqs.append((skind, spid, _candidate(I, spid, stext) if skind == 'set' else None))
+                    if port is None:
+                        coros.append(_const('noport'))
+                    elif skind == 'set':
+                        n_seq += 1 if port._sequence else 0
+                        coros.append(_do_set(I, port, stext))
+                    else:
+                        coros.append(_do_remove(I, port))
+                outcomes = list(await asyncio.gather(*coros))
+                afters = [_text(I, spid) for _, spid, _ in subs]
+                if not _serializable(before, reqs, outcomes, afters):
+                    bad = ('not-serializable', 'no order of serving the concurrent requests %r one after the other gives the '
+                           'outcomes %r and the expressions %r' % (subs, outcomes, afters))
+                obs.append(('par', list(zip(outcomes, afters)), n_seq))
             else:
-                if port is None:
-                    obs.append(('noport', ''))
-                    continue
-                before_expr = port.get_expression()
-                before = str(before_expr) if before_expr else ''
-                graph = _edges(I)
-                # what the specification says about this assignment, from the implementation's own objects
-                cand, closes = None, False
-                if text:
-                    try:
-                        cand = I.expressions.parse(pid, text, I.expressions.ROLE_VALUE)
-                    except I.ex.ExpressionParseError:
-                        cand = None
-                    if cand is not None:
-                        closes = any(q != pid and q in graph and pid in _reach(graph, q) for q in _value_deps(cand))
-                try:
-                    await port.set_attr('expression', text)
-                    outcome = 'accepted'
-                except I.core_ports.InvalidAttributeValue as e:
-                    reason = (e.details or {}).get('reason')
-                    outcome = 'circular' if reason == 'circular-dependency' else 'parse'
-                except I.ex.CircularDependency:
-                    outcome = 'circular'
-                except Exception as e:  # anything else is outside the model's alphabet -> tie failure
-                    outcome = 'other:%s' % type(e).__name__
-                after_expr = port.get_expression()
-                after = str(after_expr) if after_expr else ''
-                if text and cand is not None:
-                    if closes and outcome != 'circular':
+                port = I.core_ports.get(pid)
+                if port is None or (kind == 'add' and port is not None):
+                    if kind == 'add' and port is None:
+                        touched.append(await _add_port(I, pid, k % 2 == 0))
+                        obs.append(('accepted', _text(I, pid)))
+                    else:
+                        obs.append(('noport', ''))
+                        continue
+                elif kind == 'remove':
+                    obs.append((await _do_remove(I, port), ''))
+                else:
+                    before = _state(I)
+                    before_expr = port.get_expression()
+                    cand = _candidate(I, pid, text)
+                    st = dict(before)
+                    want = _serve(st, 'set', pid, cand)
+                    outcome = await _do_set(I, port, text)
+                    after_expr = port.get_expression()
+                    after = str(after_expr) if after_expr else ''
+                    if want == 'circular' and outcome != 'circular':
                         bad = ('cycle-accepted', 'assignment closes a cycle but was %s' % outcome)
-                    elif not closes and outcome == 'circular':
+                    elif want == 'accepted' and outcome == 'circular':
                         bad = ('false-rejection', 'assignment closes no cycle between distinct ports but was rejected')
-                    elif outcome == 'accepted' and after != str(cand):
+                    elif outcome == 'accepted' and text and cand is not None and after != cand[0]:
                         bad = ('not-installed', 'accepted but the expression is %r' % after)
-                if bad is None and outcome in ('circular', 'parse') and (after != before or after_expr is not before_expr):
-                    bad = ('rejected-but-changed', 'rejected (%s) but the expression changed from %r to %r' % (outcome, before, after))
-                if bad is None and not text and after != '':
-                    bad = ('not-cleared', 'empty text did not clear the expression')
+                    elif outcome in ('circular', 'parse') and (after != before[pid][0] or after_expr is not before_expr):
+                        bad = ('rejected-but-changed', 'rejected (%s) but the expression changed from %r to %r'
+                               % (outcome, before[pid][0], after))
+                    elif not text and after != '':
+                        bad = ('not-cleared', 'empty text did not clear the expression')
+                    obs.append((outcome, after))
             cyc = _distinct_cycle(_edges(I))
             if cyc is not None:
                 bad = ('cycle-present', 'ports %s and %s read each other' % tuple(cyc))
-            obs.append((outcome, after))
             if bad is not None and verdict is None:
                 verdict = (k, bad[0], bad[1])
     finally:
+        for port in touched:
+            try:
+                await port.set_sequence([], [], 0)
+            except Exception:
+                pass
         for port in list(I.core_ports.get_all()):
             try:
                 await _remove_port(I, port)
@@ -432,12 +594,35 @@ def coq_op(kind, pid, text):
     return 'OSet %s (TExpr %s)' % (cstr(pid), coq_expr(t))
 
 
+def _coq_obs(kind, pid, text, outcome, after):
+    t = parse_fragment(text) if kind == 'set' and text else None
+    a = 'ANew' if (t is not None and after == text_of(t)) else 'AText %s' % coq.string(after)
+    return '(%s, %s, %s)' % (coq_op(kind, pid, text), OUTCOME[outcome], a)
+
+
+def emitted(h):
+    """indices of the operations that are steps of the Coq history (starting a value sequence is not one)"""
+    return [i for i, o in enumerate(h['ops']) if o[0] != 'seq']
+
+
+def flat_outcomes(obs):
+    for o in obs:
+        if o[0] == 'par':
+            for x in o[1]:
+                yield x[0]
+        elif not o[0].startswith('seq-'):
+            yield o[0]
+
+
 def coq_hist(h, obs):
     rows = []
-    for (kind, pid, text), (outcome, after) in zip(h['ops'], obs):
-        t = parse_fragment(text) if kind == 'set' and text else None
-        a = 'ANew' if (t is not None and after == text_of(t)) else 'AText %s' % coq.string(after)
-        rows.append('(%s, %s, %s)' % (coq_op(kind, pid, text), OUTCOME[outcome], a))
+    for (kind, pid, text), o in zip(h['ops'], obs):
+        if kind == 'seq':
+            continue
+        if kind == 'par':
+            rows.append('HPar [%s]' % '; '.join(_coq_obs(sk, sp, st, out, after) for (sk, sp, st), (out, after) in zip(text, o[1])))
+        else:
+            rows.append('HOne %s' % _coq_obs(kind, pid, text, o[0], o[1]))
     return '(%s, [%s])' % (coq.lst(h['ports'], cstr), ';\n   '.join(rows))
 
 
@@ -459,6 +644,27 @@ def _simpler_trees(t):
         yield ('lit', 1)
 
 
+def _simpler_ops(op):
+    kind, pid, text = op
+    if kind == 'set' and text:
+        t = parse_fragment(text)
+        if t is not None:
+            for t2 in _simpler_trees(t):
+                yield [kind, pid, text_of(t2)]
+    elif kind == 'par':
+        subs = text
+        if len(subs) > 2:
+            for i in range(len(subs)):
+                yield ['par', '', subs[:i] + subs[i + 1:]]
+        for i, sub in enumerate(subs):
+            for s2 in _simpler_ops(sub):
+                yield ['par', '', subs[:i] + [s2] + subs[i + 1:]]
+
+
+def _op_ports(o):
+    return {x[1] for x in o[2]} if o[0] == 'par' else {o[1]}
+
+
 def shrink(h, kind):
     def fails(c):
         _, v = run_impl([c])[0]
@@ -478,18 +684,15 @@ def shrink(h, kind):
             budget -= 1
             if c['ops'] and fails(c):
                 cur, changed = c, True
-        for i, (k, p, text) in enumerate(cur['ops']):
-            t = parse_fragment(text) if k == 'set' and text else None
-            if t is None:
-                continue
-            for t2 in _simpler_trees(t):
-                c = {'ports': cur['ports'], 'ops': cur['ops'][:i] + [[k, p, text_of(t2)]] + cur['ops'][i + 1:]}
+        for i, o in enumerate(cur['ops']):
+            for o2 in _simpler_ops(o):
+                c = {'ports': cur['ports'], 'ops': cur['ops'][:i] + [o2] + cur['ops'][i + 1:]}
                 budget -= 1
                 if fails(c):
                     cur, changed = c, True
                     break
         for pid in list(cur['ports']):
-            if len(cur['ports']) > 1 and not any(o[1] == pid for o in cur['ops']):
+            if len(cur['ports']) > 1 and not any(pid in _op_ports(o) for o in cur['ops']):
                 c = {'ports': [q for q in cur['ports'] if q != pid], 'ops': cur['ops']}
                 budget -= 1
                 if fails(c):
@@ -511,10 +714,15 @@ def load_corpus():
 
 def _nontrivial(h, obs):
     """at least one circular rejection and one accepted assignment of a function call that reads another port"""
-    rej = any(o[0] == 'circular' for o in obs)
+    rej = any(o == 'circular' for o in flat_outcomes(obs))
     acc = False
     for (kind, pid, text), o in zip(h['ops'], obs):
-        if kind == 'set' and text and o[0] == 'accepted':
+        if kind == 'par':
+            for (sk, sp, st), (out, _) in zip(text, o[1]):
+                t = parse_fragment(st) if sk == 'set' and st else None
+                if out == 'accepted' and t is not None and (tree_ports(t) - {sp}):
+                    acc = True
+        elif kind == 'set' and text and o[0] == 'accepted':
             t = parse_fragment(text)
             if t is not None and t[0] == 'call' and (tree_ports(t) - {pid}):
                 acc = True
@@ -531,7 +739,8 @@ def _violation(h, k, kind, detail, obs, do_shrink=True):
         'case': {'ports': small['ports'], 'ops': small['ops']},
         'observed': [list(o) for o in sobs],
         'expected': 'an assignment is rejected with circular-dependency iff it closes a cycle between distinct ports; '
-                    'a rejected assignment leaves the previous expression; the graph stays acyclic',
+                    'a rejected assignment leaves the previous expression; the graph stays acyclic; requests issued '
+                    'concurrently (a "par" operation, asyncio.gather) end as if served one after the other in some order',
     }
 
 
@@ -549,10 +758,21 @@ def run_histories(ctx, res, hs, tag, every=False, shard_size=250, count_distinct
     for h, (obs, verdict) in zip(hs, results):
         res['evaluations'] += 1
         bump('histories')
-        bump('ports:%d' % len(set(h['ports']) | {o[1] for o in h['ops']}))
+        bump('ports:%d' % len(set(h['ports']) | set().union(*[_op_ports(o) for o in h['ops']]) - {''}))
         bump('length:%s' % ('1-4' if len(h['ops']) <= 4 else '5-10' if len(h['ops']) <= 10 else '11-20' if len(h['ops']) <= 20 else '21-40'))
         for (kind, pid, text), o in zip(h['ops'], obs):
             bump('op:%s' % ('clear' if kind == 'set' and not text else kind))
+            if kind == 'seq':
+                bump(o[0])
+                continue
+            if kind == 'par':
+                bump('par:%d-requests' % len(text))
+                bump('par:%d-of-them-on-a-port-with-a-running-sequence' % o[2])
+                if any(x[0] == 'remove' for x in text):
+                    bump('par:with-removal')
+                for out, _ in o[1]:
+                    bump('par-outcome:%s' % out.split(':')[0])
+                continue
             bump('outcome:%s' % o[0].split(':')[0])
             if kind == 'set' and text:
                 t = parse_fragment(text)
@@ -563,7 +783,9 @@ def run_histories(ctx, res, hs, tag, every=False, shard_size=250, count_distinct
         if verdict is not None and n_viol < 5:
             n_viol += 1
             res['violations'].append(_violation(h, verdict[0], verdict[1], verdict[2], obs))
-        others = [(k, o) for k, o in enumerate(obs) if o[0] not in OUTCOME]
+        others = [(k, o) for k, o in enumerate(obs)
+                  if (o[0] == 'par' and any(x[0] not in OUTCOME for x in o[1]))
+                  or (o[0] != 'par' and not o[0].startswith('seq-') and o[0] not in OUTCOME)]
         if others:
             k, o = others[0]
             res['tie_failures'].append({'ports': h['ports'], 'ops': h['ops'][:k + 1], 'implementation': list(o),
@@ -590,16 +812,17 @@ def run_histories(ctx, res, hs, tag, every=False, shard_size=250, count_distinct
         bad_model, bad_spec = lists
         for code in bad_model[:5]:
             h, obs = part[code // 1000]
-            k = code % 1000
+            k = emitted(h)[code % 1000]
             res['tie_failures'].append({'ports': h['ports'], 'ops': h['ops'][:k + 1],
                                         'implementation': [list(o) for o in obs[:k + 1]][-3:],
                                         'note': 'model differs from implementation at step %d' % k})
         for code in bad_spec[:5]:
             h, obs = part[code // 1000]
-            k = min(code % 1000, len(h['ops']) - 1)
+            em = emitted(h)
+            k = em[min(code % 1000, len(em) - 1)]
             if any(v['case']['ops'] == h['ops'][:len(v['case']['ops'])] for v in res['violations']):
                 continue
-            v = _violation(h, k, 'coq-spec', 'the observation at step %d contradicts Spec.closes_cycle_b / acyclic_b' % k, obs,
+            v = _violation(h, k, 'coq-spec', 'the observation at operation %d contradicts Spec.spec_step / par_allowed / acyclic_b' % k, obs,
                            do_shrink=False)
             res['violations'].append(v)
     return results
@@ -607,9 +830,12 @@ def run_histories(ctx, res, hs, tag, every=False, shard_size=250, count_distinct
 
 def check(ctx, res):
     res['rule'] = (
-        'histories of 1..40 operations over 2..8 virtual ports (some absent at the start): 73% assignments of random trees '
+        'histories of 1..40 operations over 2..8 virtual ports (some absent at the start): ~66% assignments of random trees '
         '(depth 0..3 over ADD MUL MIN MAX IF NOT ABS AND OR SUB, leaves $id / $ / dangling ids / literals), 7% clears, 3% '
-        'unparsable texts, 7% removals, <=10% re-additions; every step through the real set_attr/remove/load_one. '
+        'unparsable texts, 7% removals, <=10% re-additions, 2% value sequences started (long delays), 6% concurrent steps: 2-3 '
+        'requests through asyncio.gather (half of them expressions that close a cycle only together, a fifth with a concurrent '
+        'port removal), on ports with a running sequence (all / some / none); every step through the real '
+        'set_attr/remove/load_one/set_sequence. '
         'distinct = distinct histories; non-trivial = contains a circular-dependency rejection and an accepted assignment of a '
         'function call reading another port')
     I = impl()
@@ -662,7 +888,8 @@ def search(ctx, res):
     n = ctx.n(20000, 200000)
     done = 0
     while done < n and not res['violations']:
-        hs = [gen_history(ctx.rng) for _ in range(4000)]
+        # half of them from the concurrent generator (every third operation a concurrent step)
+        hs = [(gen_par_history if i % 2 else gen_history)(ctx.rng) for i in range(4000)]
         run_histories(ctx, res, hs, 's%d' % done, every=True)
         done += len(hs)
     if not res['violations']:
@@ -672,7 +899,9 @@ def search(ctx, res):
 
 REPLAY_HELP = ('bin/check C04 --replay <this file>; or in /repo: create the virtual ports of case.ports '
                '(core_vports.add + core_ports.load_one), then for each [kind, port, text] of case.ops: '
-               'set -> await port.set_attr("expression", text); remove -> await port.remove(); add -> load_one again')
+               'set -> await port.set_attr("expression", text); remove -> await port.remove(); add -> load_one again; '
+               'seq -> enable the port and await port.set_sequence([1, 2, 3], [60000, 60000, 60000], 0); '
+               'par (text = list of operations) -> await asyncio.gather(...) of those operations')
 
 LEVEL_TEXT = (
     'Coq theorems over a Gallina model of check_loops (the recursive walk with the shared seen_ports set, level counter, '
@@ -682,14 +911,18 @@ LEVEL_TEXT = (
     '(soundness by induction on the run, completeness by the closed-set argument over the threaded seen set); hence for every '
     'sequence of assignments, clears, additions and removals from an acyclic graph the graph stays acyclic between distinct '
     'ports; a rejected assignment keeps the previous expression; an assignment that closes no cycle (self references '
-    'included) is never rejected. The model is compared step by step with the real set_attr("expression") path on generated '
+    'included) is never rejected. Concurrent requests: an event-loop model in which a request may be suspended any number '
+    'of times before its check and after its store but not in between (the number of suspension points in between is '
+    'regenerated from the source on every run and proved to be 0) -- every schedule is a serialization, so no interleaving '
+    'creates a cycle. The model is compared step by step with the real set_attr("expression") path on generated '
     'histories, and the real outcomes are compared with the Coq specification oracle (proved equivalent to the declarative '
     'definitions) and with a brute-force reachability test over the implementation\'s own get_deps().'
 )
 LEVEL_NOTE = (
     'Trusted: Coq kernel incl. vm_compute; the correspondence harness (generator, text<->tree mapping of the generated '
-    'fragment, checked through str(expression) at every step); the parser is not modelled (C03); port identity = id equality. '
-    'Assumes assignments are not interleaved and ids are not re-mapped while referenced. No axioms (Print Assumptions: closed '
+    'fragment, checked through str(expression) at every step); translator exprstore.py; the parser is not modelled (C03); port '
+    'identity = id equality. Atomicity of check+store is read from the source (await count) and tested with concurrent steps, '
+    'asyncio itself is not modelled beyond "a coroutine runs until its next await". Ids are not re-mapped while referenced. No axioms (Print Assumptions: closed '
     'under the global context).'
 )
 TECHNIQUE = 'Coq proof (induction on fuel and expression structure; closed-set invariant for the DFS) + vm_compute correspondence on generated histories'
